@@ -119,8 +119,15 @@ def check_case(case, ctx):
                     ctx.nontriv((lines, style, 'all', verbose),
                                 {'style': style, 'verbose': verbose, 'expected': exp, 'corner': tags, 'module': '\n'.join(lines)})
             # ---- all
-            with sandbox.quiet():
-                rs = xdoctest.doctest_module(path, command='all', argv=[], style=style, verbose=verbose)
+            try:
+                with sandbox.quiet():
+                    rs = xdoctest.doctest_module(path, command='all', argv=[], style=style, verbose=verbose)
+            except BaseException as ex:   # noqa  (also pytest's outcome exceptions, which are not Exceptions)
+                if isinstance(ex, (KeyboardInterrupt, SystemExit, engine.Abort)):
+                    raise
+                raise Violation('all:run_raises:' + type(ex).__name__,
+                                "running 'all' raised {}: {!r} instead of returning a summary\nstyle={} verbose={}\n{}".format(
+                                    type(ex).__name__, ex, style, verbose, src))
             got_trace = sorted(_read_trace(trace))
             where = 'style={} verbose={}\n{}'.format(style, verbose, src)
             if got_trace != exp['trace']:
@@ -172,8 +179,13 @@ def check_case(case, ctx):
 
 
 def _check_named(xdoctest, path, trace, x, command, style, verbose, where):
-    with sandbox.quiet():
-        rs = xdoctest.doctest_module(path, command=command, argv=[], style=style, verbose=verbose)
+    try:
+        with sandbox.quiet():
+            rs = xdoctest.doctest_module(path, command=command, argv=[], style=style, verbose=verbose)
+    except BaseException as ex:   # noqa
+        if isinstance(ex, (KeyboardInterrupt, SystemExit, engine.Abort)):
+            raise
+        raise Violation('named:run_raises:' + type(ex).__name__, 'naming {!r} raised {}: {!r}\n{}'.format(command, type(ex).__name__, ex, where))
     got = sorted(_read_trace(trace))
     tag = 'disabled' if x['disabled'] else 'enabled'
     if got != sorted(x['traces']):
